@@ -6,6 +6,7 @@ import (
 	"sort"
 	"strconv"
 	"strings"
+	"sync"
 	"time"
 
 	"github.com/thushan/olla/internal/core/constants"
@@ -63,6 +64,10 @@ var (
 	modelGroupPool    = make([]ModelGroupSummary, 0, 16)
 )
 
+// the scratch space above is shared by every request to this handler: one request at a time
+// builds (and serialises) its response in it
+var modelStatusPoolMu sync.Mutex
+
 func (a *Application) modelsStatusHandler(w http.ResponseWriter, r *http.Request) {
 	ctx := r.Context()
 
@@ -81,6 +86,7 @@ func (a *Application) modelsStatusHandler(w http.ResponseWriter, r *http.Request
 		return
 	}
 
+	modelStatusPoolMu.Lock()
 	for k := range endpointNamesPool {
 		delete(endpointNamesPool, k)
 	}
@@ -104,9 +110,17 @@ func (a *Application) modelsStatusHandler(w http.ResponseWriter, r *http.Request
 		response.ModelGroups = a.groupModelsByFamilyWithDetails(allModels)
 	}
 
+	// the response still points into the pools: serialise it before letting the next request in
+	body, err := json.Marshal(response)
+	modelStatusPoolMu.Unlock()
+	if err != nil {
+		http.Error(w, "Failed to encode models", http.StatusInternalServerError)
+		return
+	}
+
 	w.Header().Set(constants.HeaderContentType, constants.ContentTypeJSON)
 	w.WriteHeader(http.StatusOK)
-	json.NewEncoder(w).Encode(response)
+	w.Write(append(body, '\n'))
 }
 
 func (a *Application) buildModelSummaries(modelMap map[string]*domain.EndpointModels, endpointNames map[string]string) []ModelSummary {
